@@ -329,6 +329,11 @@ pub fn seeds(p: usize) -> Vec<&'static str> {
     match p {
         0 => vec![
             "2017-01-14T00:31:55 UTC",
+            "JD -1e19 TAI",
+            "MJD -1e300 UTC",
+            "JD -9223372036854775808 UTC",
+            "SEC -1e19 TT",
+            "MJD 9223372036854775808 GPST",
             "2017-01-14T00:31:55.0811200 TAI",
             "2017-01-14 00:31:55",
             "1994-11-05T08:15:30-05:00",
@@ -381,7 +386,7 @@ pub fn format_inputs() -> Vec<(&'static str, &'static str)> {
 }
 
 pub fn numeric_extremes() -> Vec<String> {
-    let mut v: Vec<String> = vec!["0", "00", "2147483647", "2147483648", "4294967295", "4294967296", "1e400", "1e-400", "inf", "nan", "-0", "infinity", "NaN", "-inf", "1e308", "9e99", "0x10", "1_000", "٣", "𝟑"].into_iter().map(String::from).collect();
+    let mut v: Vec<String> = vec!["0", "00", "2147483647", "2147483648", "4294967295", "4294967296", "1e400", "1e-400", "inf", "nan", "-0", "infinity", "NaN", "-inf", "1e308", "9e99", "0x10", "1_000", "٣", "𝟑", "-1e19", "-1e300", "-9223372036854775808", "9223372036854775808", "-9223372036854775809", "1e19", "-2147483649", "18446744073709551616"].into_iter().map(String::from).collect();
     for n in [1usize, 2, 3, 5, 9, 10, 11, 19, 20, 25, 39, 40] {
         v.push("9".repeat(n));
     }
